@@ -266,6 +266,10 @@ class RealGW:
         # "<kind>-nocb": the same gateway constructed without an event callback (the keyword is optional)
         self.nocb = kind.endswith("-nocb")
         kind = kind[:-5] if self.nocb else kind
+        if kind.endswith("-raisecb"):
+            # "<kind>-raisecb": the user's event callback raises on every call (the gateway logs it and carries on)
+            kind = kind[:-8]
+            raising_cb = True
         self.kind = kind
         self.persist = persist
         self.workdir = workdir
@@ -468,6 +472,7 @@ def op_wire(op):
 
 def gw_wire(version, kind, persist):
     kind = kind[:-5] if kind.endswith("-nocb") else kind      # the model has no callback to omit
+    kind = kind[:-8] if kind.endswith("-raisecb") else kind
     return f"G {version} {kind} {persist}"
 
 
